@@ -276,6 +276,9 @@ func pathContains(path []unsafe.Pointer, item unsafe.Pointer) bool {
 	return slices.Contains(path, item)
 }
 
+// maxDepth is the maximum nesting depth of arrays and objects accepted by decode.
+const maxDepth = 10000
+
 // isNumber reports whether s is a number according to the JSON grammar:
 //
 //	-?(0|[1-9][0-9]*)(\.[0-9]+)?([eE][+-]?[0-9]+)?
@@ -406,7 +409,15 @@ func decode(thread *starlark.Thread, b *starlark.Builtin, args starlark.Tuple, k
 	// It consumes leading but not trailing whitespace.
 	// It panics on error.
 	var parse func() starlark.Value
+	depth := 0
 	parse = func() starlark.Value {
+		// Bound the nesting depth (as encoding/json does), so that
+		// input such as "[[[[..." cannot exhaust the Go stack.
+		if depth++; depth > maxDepth {
+			fail("exceeded maximum nesting depth of %d", maxDepth)
+		}
+		defer func() { depth-- }()
+
 		b := next()
 		switch b {
 		case '"':
